@@ -5,7 +5,7 @@
 From Coq Require Import NArith ZArith List Bool.
 From F8 Require Import Codec.Bytes Codec.Meta Codec.Extract Codec.Decode Codec.Example
                        C04.Spec_C04 C04.Strict C04.Tokens C04.Example04 C04.Sound C04.Exact C04.WitnessProofs C04.SoundProofs
-                       C04.ExactProofs.
+                       C04.ExactProofs C04.RetainProofs.
 Import ListNotations.
 Local Open Scope N_scope.
 
@@ -66,10 +66,28 @@ Theorem c04_exact_partial : forall c toks,
 Proof. exact exact_accept_lemma. Qed.
 Print Assumptions c04_exact_partial.
 
-(* Non-vacuity: a NewOrderList with two orders, the second carrying two nested allocations,
-   conforms, is accepted by the model, and every token is retained. *)
+(* The whole property on the same token sequences: if moreover every value survives its type's
+   rendering (rendered: printing the field object built from the text gives the text back, for
+   int types the same integer; the BeginString is the schema's own), then the oracle c04_ok
+   holds on the model's result:
+     accepted  -> the input conforms AND every token of the input is matched by a distinct
+                  (tag, value) entry of the accepted object (retains: nothing discarded, renamed or
+                  given another value);
+     otherwise -> the model throws and the input does not conform.
+   c04_ok is the function the check applies to the real decoder's result on every case. *)
+Theorem c04_exact_retains_partial : forall c toks,
+  wf_ctx c = true -> exact_hyps c toks = true -> rendered c toks = true ->
+  struct_verdict c toks <> VIllegal ->
+  c04_ok c (ser toks) (outcome_of c (strict_factory c (ser toks))) = true.
+Proof. exact c04_ok_lemma. Qed.
+Print Assumptions c04_exact_retains_partial.
+
+(* Non-vacuity: a NewOrderList with two orders, the second carrying two nested allocations, meets
+   every hypothesis of c04_exact_partial / c04_exact_retains_partial, conforms, is accepted by the
+   model, and every token is retained. *)
 Theorem c04_nonvacuous :
-  wf_ctx ex4_ctx = true /\ tokenize (ser toks_list) = Some toks_list /\
+  wf_ctx ex4_ctx = true /\ exact_hyps ex4_ctx toks_list = true /\ rendered ex4_ctx toks_list = true /\
+  struct_verdict ex4_ctx toks_list = VConf /\ tokenize (ser toks_list) = Some toks_list /\
   conforms ex4_ctx (ser toks_list) = true /\ accepted ex4_ctx (ser toks_list) = true /\
   retained ex4_ctx toks_list = true /\ model_ok ex4_ctx (ser toks_list) = true.
 Proof. exact c04_nonvacuous_lemma. Qed.
